@@ -99,6 +99,24 @@ func checkC09(c *Ctx) {
 	// … and a key is associated with the labels it was given, only those: every label's list gets string(key) appended to that
 	// label's own list (lists of different labels sharing storage would hand one label's key to another label's invalidation)
 	c.borrowKinds("C15", func() { c.c15Labelling() }, "R09.5", "InvalidationIndex.AddLabels:own-list", []string{"R15.6"}, "label-not-recorded", "labels-filed-under-other-name")
+	// a result handed out for key k stays k's: stored entries are never written again (a slot matched by hash only and updated in
+	// place turns the expired entry a reader still holds into another key's value) (C08 R08.6 = C16 R16.1 on the entry types); and
+	// "a collision may at most cost a cache miss": Delete of a key whose slot holds another key reports ErrNotFound itself (C07 R07.3)
+	c.borrow("C16", func() { c.c16Classified(); c.c16Accesses() }, func(o *coreObl) (string, bool) {
+		if o.Status != "violated" || o.Rule != "R16.1" || !strings.HasPrefix(o.Construct, "TraitEntry") || !strings.HasPrefix(o.What, "write-after-publication") {
+			return "", false
+		}
+		if strings.HasSuffix(o.Construct, ".E") && strings.HasSuffix(o.What, "ExpireAll") {
+			return "", false // the known in-place expiry stamp of SyncMap.ExpireAll keeps key and value
+		}
+		return "R09.2", true
+	})
+	c.R.OK("R09.2", "backends:stored-entries-immutable", "K and V of stored entries are never written after publication (C16 R16.1 restricted to the entry types)")
+	c.borrowKinds("C07", func() {
+		for _, b := range backends {
+			c.c07Delete(b)
+		}
+	}, "R09.3", "backends.Delete:collision-is-a-miss", []string{"R07.3"}, "other-error", "removed-but-notfound", "nil-without-evidence")
 	// R09.4: the per-key build locks of the Failover frontends are keyed by the full key, not by a hash of it
 	for _, sib := range siblings {
 		fo := c.failover(sib)
